@@ -281,4 +281,30 @@ theorem countDiff_eq_filter : ∀ (l l' : List Int), l.length = l'.length →
       · simp [hxy]
       · simp [hxy]; omega
 
+theorem countDiff_zero : ∀ (l l' : List Int), l.length = l'.length → countDiff l l' = 0 → l = l' := by
+  intro l
+  induction l with
+  | nil => intro l' h _; cases l' with | nil => rfl | cons _ _ => simp at h
+  | cons x xs ih =>
+    intro l' hl h0
+    cases l' with
+    | nil => simp at hl
+    | cons y ys =>
+      simp only [countDiff] at h0
+      have hxy : x = y := by
+        apply Classical.byContradiction
+        intro hne; simp [hne] at h0
+      have h2 : countDiff xs ys = 0 := by omega
+      rw [hxy, ih ys (by simpa using hl) h2]
+
+theorem sum_zero_mem (l : List Nat) (h : l.sum = 0) : ∀ x ∈ l, x = 0 := by
+  induction l with
+  | nil => intro x hx; simp at hx
+  | cons y ys ih =>
+    intro x hx
+    simp only [List.sum_cons] at h
+    rcases List.mem_cons.mp hx with rfl | hx
+    · omega
+    · exact ih (by omega) x hx
+
 end Vita.C17
